@@ -25,8 +25,9 @@ class Mut:
     """a (possibly conditional) mutation of parameter `param` at `node`; cond = name of the boolean
     parameter that must be truthy, or None"""
 
-    def __init__(self, param, node, func, what, cond=None, via=None):
+    def __init__(self, param, node, func, what, cond=None, via=None, guard=None):
         self.param, self.node, self.func, self.what, self.cond, self.via = param, node, func, what, cond, via
+        self.guard = guard      # {param: set of type names} - the mutation happens only when isinstance(param, one of them)
 
 
 class ParamMutation:
@@ -41,10 +42,12 @@ class ParamMutation:
         if f in self.in_progress:
             return []
         self.in_progress.add(f)
+        saved_f = getattr(self, "f", None)
         try:
             s = self._analyse(f)
         finally:
             self.in_progress.discard(f)
+            self.f = saved_f
         self.summaries[f] = s
         return s
 
@@ -99,9 +102,27 @@ class ParamMutation:
                 return frozenset()
             return frozenset()
 
+        guard_stack = []
+
         def record(p_set, node, what, cond=None, via=None):
+            g = {}
+            for (gp, names) in guard_stack:
+                g[gp] = set(names) if gp not in g else (g[gp] & set(names))
+            if via is not None and via.guard:
+                pass
             for p in p_set:
-                muts.append(Mut(p, node, f, what, cond, via))
+                muts.append(Mut(p, node, f, what, cond, via, guard=dict(g) if g else None))
+
+        def isinstance_guard(test):
+            """(param, [type names]) if the test requires isinstance(param, T) (possibly and-ed with more)"""
+            tests = test.values if isinstance(test, ast.BoolOp) and isinstance(test.op, ast.And) else [test]
+            for t in tests:
+                if isinstance(t, ast.Call) and isinstance(t.func, ast.Name) and t.func.id == "isinstance" and len(t.args) == 2 and \
+                        isinstance(t.args[0], ast.Name) and t.args[0].id in f.params:
+                    tn = t.args[1]
+                    names = [ast.unparse(x).split(".")[-1] for x in (tn.elts if isinstance(tn, ast.Tuple) else [tn])]
+                    return (t.args[0].id, names)
+            return None
 
         def cond_of(expr):
             """None = unconditional; False = never; str = parameter name"""
@@ -210,7 +231,12 @@ class ParamMutation:
                 elif isinstance(st, ast.If):
                     visit_calls(st.test, env)
                     e1, e2 = dict(env), dict(env)
+                    g = isinstance_guard(st.test)
+                    if g:
+                        guard_stack.append(g)
                     run(st.body, e1)
+                    if g:
+                        guard_stack.pop()
                     run(st.orelse, e2)
                     _merge(env, e1, e2)
                 elif isinstance(st, (ast.For, ast.While)):
@@ -246,6 +272,18 @@ class ParamMutation:
         run(f.node.body, env)
         self._env_after = env
         return muts
+
+    def _static_type(self, expr):
+        """annotation base name of a bare parameter of the function under analysis, else None"""
+        if isinstance(expr, ast.Name):
+            a = self.f.node.args
+            for arg in a.posonlyargs + a.args + a.kwonlyargs:
+                if arg.arg == expr.id and arg.annotation is not None:
+                    t = ast.unparse(arg.annotation)
+                    if t.startswith(("Union", "Optional", "typing.Union")):
+                        return None
+                    return t.split("[")[0].split(".")[-1]
+        return None
 
     def _ret_alias(self, g, call, env, alias, self_expr=None):
         """aliases the value returned by g(call args) may carry: params of g that g returns (syntactic summary)"""
@@ -323,6 +361,11 @@ class ParamMutation:
             a = alias(actual[m.param], env)
             if not a:
                 continue
+            if m.guard and m.param in m.guard:
+                st_type = self._static_type(actual[m.param])
+                if st_type is not None and st_type not in m.guard[m.param] and not (st_type in ("Tuple", "tuple") and {"tuple", "Tuple"} & m.guard[m.param]) \
+                        and not (st_type in ("List", "list") and {"list", "List"} & m.guard[m.param]):
+                    continue    # e.g. the callee mutates only in its `isinstance(data, tuple)` branch and a QuantumCircuit is passed
             cd = None
             if m.cond is not None:
                 ce = actual.get(m.cond)
